@@ -80,6 +80,10 @@ package mvp6_0
 // Run (C09): every exit of the main loop happens with all older write-backs
 // done and (second exit clause) every execute unit idle. (C12) the cycle
 // counter is positive when the loop is left.
+// (C07; F31) nothing the queue could take is left in the bus buffer (what
+// Connect establishes): invariant of the write-back drain inside the flush
+// path (loops 5, 6 of Run), which otherwise never ends.
+//@ spec func connected(b *comp.BufferedBus[risc.ExecutionContext], c int) bool = len(b.buffer) > 0 ==> len(b.queue) == b.queueLength || b.buffer[0].availableFromCycle > c
 //@ func (*CPU).Run
 //@   assume-before (*memoryManagementUnit).flush: wfMMU(m.memoryManagementUnit) && m.memoryManagementUnit.l3.lineLength == 64 && allocated(m.memoryManagementUnit.ctx.Memory) && (forall j :: 0 <= j && j < len(m.memoryManagementUnit.l3.lines) ==> !sameArray(m.memoryManagementUnit.l3.lines[j].Data, m.memoryManagementUnit.ctx.Memory) && int32(m.memoryManagementUnit.l3.lines[j].Boundary[0]) <= 1073741824)
 //@   requires wired(m)
@@ -94,8 +98,8 @@ package mvp6_0
 //@   loop 2: invariant cycle >= 1 && wired(m)
 //@   loop 3: invariant cycle >= 1 && wired(m)
 //@   loop 4: invariant cycle >= 1 && wired(m)
-//@   loop 5: invariant cycle >= 1 && wired(m)
-//@   loop 6: invariant cycle >= 1 && wired(m)
+//@   loop 5: invariant cycle >= 1 && wired(m) && connected(m.writeBus, cycle + 1)
+//@   loop 6: invariant cycle >= 1 && wired(m) && connected(m.writeBus, cycle + 1)
 //@   loop 7: invariant cycle >= 1 && wired(m)
 //@   loop 8: invariant cycle >= 1 && wired(m)
 //@   loop 9: invariant cycle >= 1 && wired(m)
